@@ -107,6 +107,7 @@ VERIF_MSGS = (
     ("possible arithmetic underflow/overflow", "arithmetic-overflow"),
     ("possible division by zero", "division-by-zero"),
     ("assertion failed", "assertion"),
+    ("requires not satisfied", "assertion"),  # `assert(..) by(..) requires ..`: the stated premises of a proof step do not hold
     ("invariant not satisfied at end of loop body", "invariant-end"),
     ("invariant not satisfied before loop", "invariant-entry"),
     ("decreases not satisfied", "decreases"),
